@@ -2,6 +2,7 @@
 from ..core import *
 from .. import harness, gen, pyref, gadgets as G, coq, model
 from ..curve import *
+from ..gen import R
 
 VO = ['Props/C13.vo', 'Tie/Gadgets.vo', 'Props/C14.vo']
 FILES = ['Props/C13.v', 'Tie/Gadgets.v', 'Proofs/GadgetProofs.v', 'Proofs/WrapperProofs.v', 'Proofs/WrapperNative.v', 'Model/Wrapper.v', 'Proofs/Codec.v', 'Proofs/Elligator.v']
@@ -44,6 +45,33 @@ def native_agreement(ctx, pool, scale):
             fails.append(('%s: gadget gives %s, native gives %s' % (lines[2 * j][:100], out[2 * j][:120], nat[:80]),
                           {'script': lines[2 * j:2 * j + 2], 'output': out[2 * j:2 * j + 2]}, {'class': 'value', 'op': op}))
     return n, fails
+
+def scalar_mul_checks(ctx, pool, scale):
+    """the scalar-multiplication gadget vs the Coq model (gscalar_mul_le over the translated AffineVar arithmetic) and vs the native result,
+    for structured bit strings (0, 1, all ones, r-1, r, longer than the modulus) in witness / input / constant mode"""
+    rng = ctx.rng; lines = []; mlines = []; nat = []
+    limbsets = [[0], [1], [2], [2**64 - 1], [0, 1], [2**64 - 1, 2**64 - 1], [(R >> (64 * i)) & (2**64 - 1) for i in range(4)],
+                [((R - 1) >> (64 * i)) & (2**64 - 1) for i in range(4)], [0, 0, 0, 0, 1]] + [[rng.bits(64) for _ in range(1 + rng.below(3))] for _ in range(2 * scale)]
+    for i, l in enumerate(limbsets):
+        c = [IDENT, T2REP, pool.base[0]][i % 3] if i < 6 else pool.pick(rng)
+        if not pyref.valid(c): c = pool.base[0]
+        x, y = pyref.aff(c); L = ','.join('%x' % v for v in l)
+        for mode in ('witness', 'input', 'const')[: 3 if i < 4 else 1]:
+            lines.append('r1.scalar_mul %s %s %s' % (mode, E(c), L)); nat.append('el.mul_bigint %s %s' % (E(c), L))
+            mlines.append('g r1.scalar_mul %d %d %d %s' % (MODE_KIND[mode], x, y, ' '.join(str(v) for v in l)))
+    hout = harness.run_script('ark', lines); nout = harness.run_script('ark', nat); mout = model.run_model(mlines)
+    mism = []; fails = []
+    for l, o, no, m in zip(lines, hout, nout, mout):
+        d = G.parse_r1(o); v = d.get('raw') or d.get('val') or ''
+        try: hv = tuple(int(t, 16) for t in v.split(','))
+        except ValueError: hv = None
+        if not m or m[0] != (1 if d.get('sat') == '1' else 0) or hv is None or list(hv) != m[1:3]:
+            mism.append({'line': l, 'implementation': o[:300], 'model': m})
+        try: want = pyref.aff(parseE(no))
+        except Exception: want = None
+        if d.get('sat') != '1' or hv is None or want is None or not pyref.coset_eq(hv, want):
+            fails.append(('%s: the gadget gives %s, native scalar multiplication gives %s' % (l[:90], o[:100], no[:80]), {'script': [l], 'output': [o, no]}, {'class': 'value', 'op': 'r1.scalar_mul'}))
+    return len(lines), mism, fails
 
 def lazy_checks(ctx, scale):
     """all orders/repetitions of forcing on a lazy variable: constraints only appended, each conversion emitted at most once"""
@@ -200,6 +228,9 @@ def run_check(ctx):
         n3, f3 = lazy_checks(ctx, scale); ctx.cov['evaluations'] += n3; ctx.cov['distinct_nontrivial'] += n3
         n4, m4, f4 = history_checks(ctx, pool, scale); ctx.cov['evaluations'] += n4; ctx.cov['distinct_nontrivial'] += n4
         for m in m4[:20]: broken.append(('wrapper-history model and implementation disagree on: %s' % m['line'][:140], {'stage': 'correspondence', **m}))
+        n6, m6, f6 = scalar_mul_checks(ctx, pool, scale); ctx.cov['evaluations'] += n6; ctx.cov['distinct_nontrivial'] += n6
+        for m in m6[:10]: broken.append(('scalar-multiplication gadget model and implementation disagree on: %s' % m['line'][:140], {'stage': 'correspondence', **m}))
+        f4 = f4 + f6
         from .. import surface
         n5, f5 = surface.c13_constants(ctx, pool); ctx.cov['evaluations'] += n5
         f3 = f3 + f4 + f5
